@@ -10,6 +10,7 @@ for all sizes — it is covered by the docstring / `spec.eq` oracles on the expl
 import OFV.Proofs.C13
 import OFV.Proofs.C13Shape
 import OFV.Proofs.C13Grid
+import OFV.Proofs.C13Diag
 
 namespace OFV.C13
 open OFV.Model OFV.Model.C13 OFV.Spec OFV.Spec.C13 OFV.Model.C13.Lattice
@@ -67,6 +68,18 @@ every Spec edge occurs once in each orientation -/
 theorem neighbors_ordered_perm (l : Lattice) :
     (l.neighbors true).Perm (l.neighbors false ++ (l.neighbors false).map Prod.swap) :=
   neighbors_ordered_perm' l
+
+/-- `diagonal_neighbors_iter(ordered=False)` (the two diagonals of every plaquette, indices mod the
+dimensions) is a duplicate-free enumeration of the Spec diagonal edge set, for all `x, y ≥ 1` and both
+boundary conditions — including `y = 2` and open boundaries, where the code before the repair
+duplicated / wrapped bonds -/
+theorem diagonal_neighbors_spec (l : Lattice) (hx : 0 < l.x) :
+    ((l.diagonalNeighbors false).map norm).Perm (edges adjD l.x l.y l.periodic) :=
+  diagonal_perm_edges l hx
+
+theorem diagonal_ordered_perm (l : Lattice) :
+    (l.diagonalNeighbors true).Perm (l.diagonalNeighbors false ++ (l.diagonalNeighbors false).map Prod.swap) :=
+  diagonal_ordered_perm' l
 
 /-! ### conservation laws from the term shapes
 
@@ -144,6 +157,8 @@ example : (bonds 2 3 true).map norm = [(0, 1), (0, 2), (1, 3), (2, 3), (2, 4), (
 example : ((⟨3, 2, 1, false, true⟩ : Lattice).neighbors false).map norm
     = [(0, 1), (3, 4), (1, 2), (4, 5), (0, 2), (3, 5), (0, 3), (1, 4), (2, 5)] := by decide
 example : (0 : Nat) < (⟨3, 2, 1, false, true⟩ : Lattice).x := by decide
+example : ((⟨2, 2, 1, false, true⟩ : Lattice).diagonalNeighbors false).map norm = [(0, 3), (1, 2)] := by decide
+example : (edges adjD 3 3 false).length = 8 := by decide
 example : List.Forall₂ (· < ·) [2, 1] [3, 2] := by decide
 example : orbitalId [3, 2] [2, 1] none = 5 ∧ gridIndices [3, 2] 5 true = [2, 1] := by decide
 example : (5 : Nat) < numPoints [3, 2] := by decide
